@@ -27,6 +27,12 @@
 //! `manual herd threads=<N> rounds=<R> [keys=<M>] [gate=none|clone|hash] [ballast=0|1] [out=ok|err|mix]`:
 //! simultaneous arrivals on real OS threads — a bounded SEARCH (not a proof) for executions in which leader
 //! election is not atomic; see `herd` below.
+//!
+//! `manual finish threads=<N> rounds=<R> [keys=<M>] [gate=none|drop] [out=ok|err|mix]`: arrivals racing with a
+//! COMPLETION on real OS threads (nothing is ever dropped, nothing panics: no request may see `leader_cancelled`);
+//! see `finish` below.
+//!
+//! `arrive … via=clone|template|swap|readyclone`: how the caller obtains the handle it calls, see `request_via`.
 use crate::world::*;
 use std::cell::Cell;
 use std::collections::{BTreeMap, BTreeSet};
@@ -149,12 +155,23 @@ impl Drop for Hooked {
 /// One request the way a caller makes it: `poll_ready`, `call`; the handle (a clone) is dropped on return,
 /// as `Oneshot` does. `None` when no future came into being (the adapter has logged why).
 fn request(mut svc: Svc, c: usize, req: Req) -> Option<(SvcFut, bool)> {
-    match poll_ready_once(&mut svc) {
-        Poll::Ready(Ok(())) => {}
+    request_on(&mut svc, c, req, true)
+}
+
+fn readied(svc: &mut Svc, c: usize) -> bool {
+    match poll_ready_once(svc) {
+        Poll::Ready(Ok(())) => true,
         _ => {
             log(format!("result {} notready", c));
-            return None;
+            false
         }
+    }
+}
+
+/// the same through a handle the caller goes on owning (`ready`: it has not been polled ready yet)
+fn request_on(svc: &mut Svc, c: usize, req: Req, ready: bool) -> Option<(SvcFut, bool)> {
+    if ready && !readied(svc, c) {
+        return None;
     }
     log_raw(format!("#arrive {} {}", c, req.key));
     let before = log_len();
@@ -185,6 +202,51 @@ impl Adapter {
     }
     fn sh(&self) -> std::sync::MutexGuard<'_, Shared> {
         self.shared.lock().unwrap_or_else(|e| e.into_inner())
+    }
+    /// `via=` says how the caller obtains the handle it calls — all legitimate Tower usage, all must coalesce alike
+    /// (the model has no notion of it):
+    /// `clone` (default): clone the owner's handle, ready the clone, call it, drop it (`svc.clone().oneshot(req)`);
+    /// `template`: ready and call the owner's handle ITSELF — the one `CoalesceService` value the adapter owns; in
+    ///   this mode the adapter makes no clone at all, so as long as every request of the case comes this way the
+    ///   handle is the sole owner of whatever the service shares between its clones (apart from what the call
+    ///   futures themselves hold) — a `&mut svc` used for several overlapping requests;
+    /// `swap`: the `mem::replace` idiom: ready the owner's handle, leave a fresh clone in its place, call the
+    ///   readied one and drop it;
+    /// `readyclone`: ready the owner's handle, clone it, ready the clone, call the clone (the owner's handle stays
+    ///   ready-but-uncalled), drop the clone.
+    /// The handle is taken out of `Shared` for the duration (nothing else runs meanwhile) and put back.
+    fn request_via(&mut self, via: &str, c: usize, req: Req) -> Option<(SvcFut, bool)> {
+        let mut own = self.sh().svc.take()?;
+        let (got, back) = match via {
+            "template" => {
+                let got = request_on(&mut own, c, req, true);
+                (got, own)
+            }
+            "swap" => {
+                if !readied(&mut own, c) {
+                    (None, own)
+                } else {
+                    let fresh = own.clone();
+                    let got = request_on(&mut own, c, req, false);
+                    drop(own);
+                    (got, fresh)
+                }
+            }
+            "readyclone" => {
+                if !readied(&mut own, c) {
+                    (None, own)
+                } else {
+                    let svc = own.clone();
+                    (request(svc, c, req), own)
+                }
+            }
+            _ => {
+                let svc = own.clone();
+                (request(svc, c, req), own)
+            }
+        };
+        self.sh().svc = Some(back);
+        got
     }
 }
 impl Drop for Adapter {
@@ -230,22 +292,22 @@ impl Mw for Adapter {
         let (parked, owner) = {
             let mut sh = self.sh();
             sh.known.insert(c);
-            (sh.parked.remove(&c), sh.svc.as_ref().map(|s| s.clone()))
+            (sh.parked.remove(&c), sh.svc.is_some())
         };
         let got = if let Some(x) = parked {
             // the request was made inside a destructor (`manual ondrop`); this op only hands the future to the poller
             Some(x)
         } else {
-            let Some(svc) = owner else {
+            if !owner {
                 // no handle left to call through: invalid operation
                 log("noop".into());
                 return None;
-            };
+            }
             let mut req = Req::new(c, kv);
             if kv.u64("callpanic", 0) == 1 {
                 req.tag = CALL_PANIC;
             }
-            request(svc, c, req)
+            self.request_via(kv.str("via", "clone").as_str(), c, req)
         };
         let (fut, led) = got?;
         let fut = Traced { c, on: !led, fut: Box::pin(fut) };
@@ -269,6 +331,8 @@ impl Mw for Adapter {
             }
         } else if what == "herd" {
             herd(kv);
+        } else if what == "finish" {
+            finish(kv);
         }
     }
 }
@@ -513,7 +577,13 @@ impl HerdLock {
         let Ok(c) = std::ffi::CString::new(path.to_string_lossy().as_bytes()) else { return HerdLock(-1) };
         let fd = unsafe { libc::open(c.as_ptr(), libc::O_CREAT | libc::O_RDWR | libc::O_CLOEXEC, 0o666) };
         if fd >= 0 {
-            unsafe { libc::flock(fd, libc::LOCK_EX) };
+            // waiting for the other processes' runs is progress as far as the watchdog is concerned
+            let nap = libc::timespec { tv_sec: 0, tv_nsec: 2_000_000 };
+            while unsafe { libc::flock(fd, libc::LOCK_EX | libc::LOCK_NB) } != 0 {
+                beat();
+                unsafe { libc::nanosleep(&nap, std::ptr::null_mut()) };
+            }
+            beat();
         }
         HerdLock(fd)
     }
@@ -706,6 +776,7 @@ fn herd(kv: &Kv) {
     let mut first_fail: Option<String> = None;
     let mut max_leaders = 0usize;
     for r in 1..=rounds {
+        beat();
         gate.reset();
         lanes.returned.store(0, Ordering::SeqCst);
         lanes.finished.store(0, Ordering::SeqCst);
@@ -814,4 +885,473 @@ fn herd(kv: &Kv) {
         ));
     }
     log(format!("herd rounds={} calls={} inner={} shared={} anomalies={}", performed, performed * threads as u64, inner, shared, bad_rounds));
+}
+
+// ------------------------------------------------------------------ arrivals racing with a completion on real OS threads
+
+thread_local! {
+    /// set by a `finish` thread around the poll of a future that LEADS (one-shot: cleared by the first value dropped)
+    static FIN_ARMED: Cell<bool> = const { Cell::new(false) };
+    /// serial of the inner call started by the `Service::call` this thread is in (or has just left)
+    static FIN_LED: Cell<Option<u64>> = const { Cell::new(None) };
+}
+
+/// A TIMED rendezvous inside the destructor of the response / error value (types of the wrapped service, i.e. the
+/// user's): the first such value destroyed on the completing thread DURING the poll that completes a leader — the
+/// copy made for the waiters, when nobody has subscribed — pauses until the other threads of the round have each
+/// made a request (returned from `Service::call`) or `timeout_ns` of real time have passed. Code that publishes and
+/// unregisters in one critical section keeps those threads out until the pause is over (cost: one time-out per
+/// round, no deadlock); code in which the key is still registered, or already free, at that point lets them in.
+struct FinHook {
+    gate: bool,
+    parties: usize,
+    timeout_ns: u64,
+    round: AtomicU64,
+    /// the round in which a completing thread is (or was) paused inside the destructor
+    in_drop: AtomicU64,
+    /// requests made since (threads that have returned from `call()`)
+    joined: AtomicUsize,
+    met: AtomicU64,
+    timeouts: AtomicU64,
+}
+struct Val {
+    serial: u64,
+    hook: Arc<FinHook>,
+}
+impl Clone for Val {
+    fn clone(&self) -> Val {
+        Val { serial: self.serial, hook: self.hook.clone() }
+    }
+}
+impl Drop for Val {
+    fn drop(&mut self) {
+        let h = &self.hook;
+        if !h.gate || !FIN_ARMED.with(|a| a.replace(false)) {
+            return;
+        }
+        h.in_drop.store(h.round.load(Ordering::SeqCst), Ordering::SeqCst);
+        let t0 = real_ns();
+        let mut spins = 0u32;
+        loop {
+            if h.joined.load(Ordering::Acquire) >= h.parties {
+                h.met.fetch_add(1, Ordering::Relaxed);
+                return;
+            }
+            spins += 1;
+            if spins % 64 == 0 {
+                if real_ns().saturating_sub(t0) > h.timeout_ns {
+                    h.timeouts.fetch_add(1, Ordering::Relaxed);
+                    return;
+                }
+                std::thread::yield_now();
+            } else {
+                std::hint::spin_loop();
+            }
+        }
+    }
+}
+#[derive(Clone)]
+struct FResp(Val);
+#[derive(Clone)]
+struct FErr(Val);
+struct FReq {
+    key: u64,
+    tid: usize,
+}
+
+struct CallRec {
+    key: u64,
+    tid: usize,
+    fail: bool,
+    /// logical instants: the request that led it entered `Service::call` (the key is registered somewhere in
+    /// there, BEFORE `inner.call()`: from then on others can join); the poll of the leader's call future that
+    /// completed it returned
+    enter: Option<u64>,
+    end: Option<u64>,
+}
+struct ReqRec {
+    tid: usize,
+    key: u64,
+    /// logical instants just before / just after `Service::call`
+    enter: u64,
+    exit: u64,
+    led: Option<u64>,
+    got: Got,
+}
+struct FinShared {
+    seq: AtomicU64,
+    serial: AtomicU64,
+    out: u8,
+    /// unfinished inner calls per key (index key-1)
+    fly: Vec<AtomicUsize>,
+    calls: Mutex<BTreeMap<u64, CallRec>>,
+    reqs: Mutex<Vec<ReqRec>>,
+    overlaps: Mutex<Vec<String>>,
+}
+#[derive(Clone)]
+struct FinInner(Arc<FinShared>, Arc<FinHook>);
+struct FinFut {
+    sh: Arc<FinShared>,
+    hook: Arc<FinHook>,
+    key: u64,
+    serial: u64,
+    fail: bool,
+    pend: u64,
+    done: bool,
+}
+impl Service<FReq> for FinInner {
+    type Response = FResp;
+    type Error = FErr;
+    type Future = FinFut;
+    fn poll_ready(&mut self, _cx: &mut Context<'_>) -> Poll<Result<(), FErr>> {
+        Poll::Ready(Ok(()))
+    }
+    fn call(&mut self, r: FReq) -> FinFut {
+        let sh = &self.0;
+        let serial = sh.serial.fetch_add(1, Ordering::SeqCst);
+        let fail = sh.out == 1 || (sh.out == 2 && serial % 2 == 1);
+        let before = sh.fly[(r.key - 1) as usize].fetch_add(1, Ordering::SeqCst);
+        if before > 0 {
+            sh.overlaps.lock().unwrap_or_else(|e| e.into_inner()).push(format!(
+                "inner call {} for key {} was started by thread {} while {} earlier inner call(s) for that key had neither finished nor been dropped",
+                serial, r.key, r.tid, before
+            ));
+        }
+        sh.calls.lock().unwrap_or_else(|e| e.into_inner()).insert(serial, CallRec { key: r.key, tid: r.tid, fail, enter: None, end: None });
+        FIN_LED.with(|l| l.set(Some(serial)));
+        // with the rendezvous the call completes at the leader's first poll; in the plain race it takes 0..2 polls
+        let pend = if self.1.gate { 0 } else { serial % 3 };
+        FinFut { sh: sh.clone(), hook: self.1.clone(), key: r.key, serial, fail, pend, done: false }
+    }
+}
+impl Future for FinFut {
+    type Output = Result<FResp, FErr>;
+    fn poll(mut self: Pin<&mut Self>, _cx: &mut Context<'_>) -> Poll<Self::Output> {
+        if self.pend > 0 {
+            self.pend -= 1;
+            return Poll::Pending; // polled by hand
+        }
+        self.done = true;
+        self.sh.fly[(self.key - 1) as usize].fetch_sub(1, Ordering::SeqCst);
+        let v = Val { serial: self.serial, hook: self.hook.clone() };
+        Poll::Ready(if self.fail { Err(FErr(v)) } else { Ok(FResp(v)) })
+    }
+}
+impl Drop for FinFut {
+    fn drop(&mut self) {
+        if !self.done {
+            self.sh.fly[(self.key - 1) as usize].fetch_sub(1, Ordering::SeqCst);
+        }
+    }
+}
+
+struct FinLanes {
+    round: AtomicU64,
+    leader_done: AtomicU64,
+    finished: AtomicUsize,
+}
+
+/// one request the way `svc.clone().oneshot(req)` makes it, polled to completion by this thread
+fn finish_request<Sv>(svc: &Sv, tid: usize, key: u64, arm: bool, count: bool, sh: &FinShared, hook: &FinHook)
+where
+    Sv: Service<FReq, Response = FResp, Error = CoalesceError<FErr>> + Clone,
+{
+    let mut cx = Context::from_waker(Waker::noop());
+    let mut s = svc.clone();
+    let ready = matches!(s.poll_ready(&mut cx), Poll::Ready(Ok(())));
+    let enter = sh.seq.fetch_add(1, Ordering::SeqCst);
+    FIN_LED.with(|l| l.set(None));
+    let mut fut = if ready { Some(Box::pin(s.call(FReq { key, tid }))) } else { None };
+    let led = FIN_LED.with(|l| l.take());
+    if let Some(k) = led {
+        if let Some(c) = sh.calls.lock().unwrap_or_else(|e| e.into_inner()).get_mut(&k) {
+            c.enter = Some(enter);
+        }
+    }
+    let exit = sh.seq.fetch_add(1, Ordering::SeqCst);
+    if count {
+        hook.joined.fetch_add(1, Ordering::SeqCst);
+    }
+    let got = match fut.as_mut() {
+        None => Got::NotReady,
+        Some(f) => {
+            let mut res = None;
+            let ok = spin_until(
+                || {
+                    FIN_ARMED.with(|a| a.set(arm && led.is_some()));
+                    let p = f.as_mut().poll(&mut cx);
+                    FIN_ARMED.with(|a| a.set(false));
+                    match p {
+                        Poll::Ready(x) => {
+                            if let Some(k) = led {
+                                // the poll that completed the call this request led has returned
+                                let now = sh.seq.fetch_add(1, Ordering::SeqCst);
+                                if let Some(c) = sh.calls.lock().unwrap_or_else(|e| e.into_inner()).get_mut(&k) {
+                                    c.end = Some(now);
+                                }
+                            }
+                            res = Some(x);
+                            true
+                        }
+                        Poll::Pending => false,
+                    }
+                },
+                HERD_DEADLINE_NS,
+            );
+            match (ok, res) {
+                (true, Some(Ok(x))) => Got::Ok(x.0.serial),
+                (true, Some(Err(CoalesceError::Service(e)))) => Got::Err(e.0.serial),
+                (true, Some(Err(CoalesceError::LeaderCancelled))) => Got::Cancelled,
+                (true, Some(Err(CoalesceError::RecvError))) => Got::Recv,
+                _ => Got::Stuck,
+            }
+        }
+    };
+    drop(fut);
+    drop(s);
+    sh.reqs.lock().unwrap_or_else(|e| e.into_inner()).push(ReqRec { tid, key, enter, exit, led, got });
+}
+
+fn finish_thread<Sv>(svc: Sv, tid: usize, threads: usize, keys: usize, rounds: u64, lanes: Arc<FinLanes>, sh: Arc<FinShared>, hook: Arc<FinHook>)
+where
+    Sv: Service<FReq, Response = FResp, Error = CoalesceError<FErr>> + Clone,
+{
+    let mut seen = 0u64;
+    loop {
+        let mut r = 0;
+        spin_until(
+            || {
+                r = lanes.round.load(Ordering::Acquire);
+                r != seen
+            },
+            u64::MAX,
+        );
+        if r == u64::MAX {
+            return;
+        }
+        seen = r;
+        if hook.gate {
+            // one completion per round: this round's first request (the key is free: it leads), and everybody
+            // else arrives while its thread is inside the completion — or, failing that, right after it
+            let first = (r as usize) % threads == tid;
+            if !first {
+                spin_until(|| hook.in_drop.load(Ordering::Acquire) == r || lanes.leader_done.load(Ordering::Acquire) == r, HERD_DEADLINE_NS);
+            }
+            finish_request(&svc, tid, 1, first, !first, &sh, &hook);
+            if first {
+                lanes.leader_done.store(r, Ordering::SeqCst);
+            }
+        } else {
+            // plain race: every thread makes `rounds` requests back to back, completions and arrivals interleave freely
+            let key = 1 + (tid % keys) as u64;
+            for i in 0..rounds {
+                if i % 64 == 0 {
+                    beat();
+                }
+                finish_request(&svc, tid, key, false, false, &sh, &hook);
+            }
+        }
+        lanes.finished.fetch_add(1, Ordering::SeqCst);
+    }
+}
+
+/// The clauses of the property for requests none of which is ever dropped unfinished and whose inner calls never
+/// panic: every request receives the result (Ok / the inner error, identified by the serial number) of an inner
+/// call for ITS key that was in flight at some moment while the request was inside `Service::call` — the call it
+/// joined, or the fresh one it started itself — and nothing else: never `leader_cancelled`, never `recv_error`,
+/// never the result of a call that was over before it arrived or started after it had been answered.
+fn finish_judge(calls: &BTreeMap<u64, CallRec>, reqs: &[ReqRec]) -> (Vec<String>, u64, u64) {
+    let mut why = Vec::new();
+    let (mut joined, mut fresh) = (0u64, 0u64);
+    for q in reqs {
+        let who = format!("a request of thread {} for key {}", q.tid, q.key);
+        let s = match &q.got {
+            Got::Ok(s) | Got::Err(s) => *s,
+            Got::Cancelled => {
+                why.push(format!(
+                    "{} {} failed with err:leader_cancelled, but no leader was dropped and no inner call panicked (every call future of this run is polled to completion)",
+                    who,
+                    match q.led { Some(k) => format!("(which started inner call {})", k), None => "(coalesced onto a call in flight)".into() }
+                ));
+                continue;
+            }
+            g => {
+                why.push(format!("{} received {}", who, g));
+                continue;
+            }
+        };
+        match q.led {
+            Some(k) if k != s => {
+                why.push(format!("{} started inner call {} but received the result of call {}", who, k, s));
+                continue;
+            }
+            Some(_) => fresh += 1,
+            None => joined += 1,
+        }
+        let Some(c) = calls.get(&s) else {
+            why.push(format!("{} received the result of an inner call ({}) that was never made", who, s));
+            continue;
+        };
+        let is_err = matches!(q.got, Got::Err(_));
+        if c.key != q.key || c.fail != is_err {
+            why.push(format!("{} received {} but inner call {} was made for key {} and {}", who, q.got, s, c.key, if c.fail { "failed" } else { "succeeded" }));
+        } else if c.enter.map(|e| e >= q.exit).unwrap_or(false) {
+            why.push(format!("{} received the result of inner call {}, which was started only after the request had returned from Service::call", who, s));
+        } else if c.end.map(|e| e <= q.enter).unwrap_or(false) {
+            why.push(format!("{} received the result of inner call {}, which had been completed (its leader, thread {}, had its result) before the request arrived: a stale result instead of a fresh call", who, s, c.tid));
+        }
+    }
+    (why, joined, fresh)
+}
+
+/// `manual finish threads=<N> rounds=<R> [keys=<M>] [gate=none|drop] [out=ok|err|mix] [gate_us=<T>]`
+///
+/// Arrivals racing with a COMPLETION on real OS threads (the `herd` run races arrivals with each other while nothing
+/// can complete). A separate instance: fresh `CoalesceLayer` over an inner service that records every call; nothing
+/// is ever dropped unfinished and nothing panics, so the property leaves a request exactly two fates: it shares the
+/// result of the call in flight when it arrived, or it starts a fresh call — see `finish_judge` (the oracle; exact,
+/// no tolerance). In particular `leader_cancelled` must never be seen. Also checked, by the inner service itself:
+/// never two unfinished inner calls for one key.
+///
+/// `gate=none`: N threads, each with a clone of the service, make R requests each for key 1 + t mod M back to back
+/// (`clone`, `poll_ready`, `call`, poll to completion); the inner calls take 0..2 polls; completions and arrivals
+/// interleave as the machine schedules them (a SEARCH; depends on cores and load).
+/// `gate=drop`: R rounds; in each, one thread makes a request (key 1 is free: it leads) and polls it; the inner call
+/// completes at that poll, and the copy of the result made for the waiters — nobody has subscribed — is destroyed
+/// inside the completion: its destructor (`FinHook`, a timed rendezvous) holds the completing thread there until
+/// each of the other N-1 threads has made a request for the key. Where publishing the result and unregistering the
+/// key are one critical section those requests wait at the lock until the time-out (`gate_us`, default 3 ms real
+/// time) and then start / join a fresh call; where the key is still registered after the result has gone out, or
+/// any other intermediate state is visible, they see it: a deterministic schedule, every round.
+///
+/// Compared line: `finish rounds=<R> calls=<N*R> anomalies=<violating requests + overlapping inner calls>`; meta
+/// `#finish …` (always) and `#finish-fail …` (the first violations in full and a one-line replay).
+fn finish(kv: &Kv) {
+    let threads = kv.u64("threads", 2).clamp(2, 32) as usize;
+    let rounds = kv.u64("rounds", 100).clamp(1, 1_000_000);
+    let gate = kv.str("gate", "none") == "drop";
+    let keys = if gate { 1 } else { (kv.u64("keys", 1).max(1) as usize).min(threads) };
+    let out = match kv.str("out", "ok").as_str() {
+        "err" => 1u8,
+        "mix" => 2,
+        _ => 0,
+    };
+    let hook = Arc::new(FinHook {
+        gate,
+        parties: threads - 1,
+        timeout_ns: kv.u64("gate_us", 3000).clamp(10, 1_000_000) * 1000,
+        round: AtomicU64::new(0),
+        in_drop: AtomicU64::new(0),
+        joined: AtomicUsize::new(0),
+        met: AtomicU64::new(0),
+        timeouts: AtomicU64::new(0),
+    });
+    let sh = Arc::new(FinShared {
+        seq: AtomicU64::new(1),
+        serial: AtomicU64::new(0),
+        out,
+        fly: (0..keys).map(|_| AtomicUsize::new(0)).collect(),
+        calls: Mutex::new(BTreeMap::new()),
+        reqs: Mutex::new(Vec::new()),
+        overlaps: Mutex::new(Vec::new()),
+    });
+    let lanes = Arc::new(FinLanes { round: AtomicU64::new(0), leader_done: AtomicU64::new(0), finished: AtomicUsize::new(0) });
+    let layer = CoalesceLayer::builder(|r: &FReq| r.key).name("finish").build();
+    let svc = layer.layer(FinInner(sh.clone(), hook.clone()));
+    let cfg = format!(
+        "threads={} rounds={} keys={} gate={} out={}",
+        threads,
+        rounds,
+        keys,
+        if gate { "drop" } else { "none" },
+        kv.str("out", "ok")
+    );
+    let _exclusive = HerdLock::acquire();
+    let t0 = real_ns();
+    let mut handles = Vec::new();
+    let mut spawn_failed = false;
+    for tid in 0..threads {
+        let (s, l, h, k) = (svc.clone(), lanes.clone(), sh.clone(), hook.clone());
+        match std::thread::Builder::new().name(format!("finish-{}", tid)).spawn(move || finish_thread(s, tid, threads, keys, rounds, l, h, k)) {
+            Ok(h) => handles.push(h),
+            Err(_) => spawn_failed = true,
+        }
+    }
+    let stop = |handles: Vec<std::thread::JoinHandle<()>>, join: bool| {
+        lanes.round.store(u64::MAX, Ordering::SeqCst);
+        if join {
+            for h in handles {
+                let _ = h.join();
+            }
+        }
+    };
+    if spawn_failed {
+        stop(handles, true);
+        log_raw("#harness-panic finish: could not create the threads".into());
+        return;
+    }
+    let calls_total = rounds * threads as u64;
+    let (mut performed, mut bad, mut inner, mut joined, mut fresh) = (0u64, 0u64, 0u64, 0u64, 0u64);
+    let mut fails: Vec<String> = Vec::new();
+    let steps = if gate { rounds } else { 1 };
+    for r in 1..=steps {
+        beat();
+        hook.round.store(r, Ordering::SeqCst);
+        hook.joined.store(0, Ordering::SeqCst);
+        lanes.finished.store(0, Ordering::SeqCst);
+        lanes.round.store(r, Ordering::Release);
+        // (a thread that cannot finish gives up after 20 s per request and reports `Stuck`)
+        if !spin_until(|| lanes.finished.load(Ordering::Acquire) >= threads, if gate { 4 * HERD_DEADLINE_NS } else { u64::MAX }) {
+            stop(handles, false);
+            log_raw(format!("#finish {} performed={} aborted=1", cfg, performed));
+            log_raw(format!("#finish-fail {} :: round {}: not all threads came back within 80 s :: replay: manual finish {}", cfg, r, cfg));
+            log(format!("finish rounds={} calls={} anomalies={}", rounds, calls_total, bad + 1));
+            return;
+        }
+        performed += 1;
+        let calls = sh.calls.lock().unwrap_or_else(|e| e.into_inner());
+        let reqs = std::mem::take(&mut *sh.reqs.lock().unwrap_or_else(|e| e.into_inner()));
+        let overlaps = std::mem::take(&mut *sh.overlaps.lock().unwrap_or_else(|e| e.into_inner()));
+        inner = calls.len() as u64;
+        let (why, j, f) = finish_judge(&calls, &reqs);
+        drop(calls);
+        joined += j;
+        fresh += f;
+        bad += (why.len() + overlaps.len()) as u64;
+        for w in overlaps.into_iter().chain(why) {
+            if fails.len() < 3 {
+                fails.push(if gate { format!("round {}: {}", r, w) } else { w });
+            }
+        }
+    }
+    stop(handles, true);
+    drop(svc);
+    drop(layer);
+    let wall = (real_ns() - t0) / 1000;
+    log_raw(format!(
+        "#finish {} performed={} wall_us={} inner={} joined={} fresh={} met={} gate_timeouts={} bad={}",
+        cfg,
+        performed,
+        wall,
+        inner,
+        joined,
+        fresh,
+        hook.met.load(Ordering::SeqCst),
+        hook.timeouts.load(Ordering::SeqCst),
+        bad
+    ));
+    if !fails.is_empty() {
+        log_raw(format!(
+            "#finish-fail {} :: {} :: replay: manual finish {} :: totals: {} violation(s) among {} requests ({} inner calls, {} requests coalesced, {} led a call)",
+            cfg,
+            fails.join(" | "),
+            cfg,
+            bad,
+            calls_total,
+            inner,
+            joined,
+            fresh
+        ));
+    }
+    log(format!("finish rounds={} calls={} anomalies={}", rounds, calls_total, bad));
 }
